@@ -134,6 +134,7 @@ type Netceptor struct {
 	reservedServices         map[string]func(*MessageData) error
 	serviceAdsLock           *sync.RWMutex
 	serviceAdsReceived       map[string]map[string]*ServiceAdvertisement
+	serviceAdsWithdrawn      map[string]map[string]time.Time
 	sendServiceAdsChan       chan time.Duration
 	backendWaitGroup         sync.WaitGroup
 	backendCount             int
@@ -332,6 +333,7 @@ func NewWithConsts(ctx context.Context, nodeID string,
 		nameHashes:               make(map[uint64]string),
 		serviceAdsLock:           &sync.RWMutex{},
 		serviceAdsReceived:       make(map[string]map[string]*ServiceAdvertisement),
+		serviceAdsWithdrawn:      make(map[string]map[string]time.Time),
 		sendServiceAdsChan:       nil,
 		backendWaitGroup:         sync.WaitGroup{},
 		backendCount:             0,
@@ -1736,8 +1738,17 @@ func (s *Netceptor) handleServiceAdvertisement(data []byte, receivedFrom string)
 		return fmt.Errorf("service advertisement has no content")
 	}
 	s.Logger.SanitizedDebug("Received service advertisement from %s\n", si.NodeID)
+	if si.NodeID == s.nodeID {
+		// This node is the authority for its own services; echoes from the network are neither applied nor relayed.
+		return nil
+	}
 	s.serviceAdsLock.Lock()
 	defer s.serviceAdsLock.Unlock()
+	if withdrawnAt, ok := s.serviceAdsWithdrawn[si.NodeID][si.Service]; ok && !si.Time.After(withdrawnAt) {
+		// Older than (or a repeat of) a withdrawal already processed: a withdrawn service must not be
+		// listed again by a delayed advertisement, and a withdrawal is relayed only once.
+		return nil
+	}
 	n, ok := s.serviceAdsReceived[si.NodeID]
 	if !ok {
 		n = make(map[string]*ServiceAdvertisement)
@@ -1753,6 +1764,10 @@ func (s *Netceptor) handleServiceAdvertisement(data []byte, receivedFrom string)
 		return nil
 	}
 	if si.Cancel {
+		if s.serviceAdsWithdrawn[si.NodeID] == nil {
+			s.serviceAdsWithdrawn[si.NodeID] = make(map[string]time.Time)
+		}
+		s.serviceAdsWithdrawn[si.NodeID][si.Service] = si.Time
 		delete(s.serviceAdsReceived[si.NodeID], si.Service)
 		if len(s.serviceAdsReceived[si.NodeID]) == 0 {
 			delete(s.serviceAdsReceived, si.NodeID)
